@@ -143,6 +143,22 @@ pub fn stale_prefix(s: &Schema, m: &DynMsg, r: &mut Rng) -> Vec<u8> {
     out
 }
 
+/// (prefix, suffix) around a conforming encoding of `m`: for some singular scalar fields an earlier record with an arbitrary
+/// (non-default) value, and at the very end an explicit record with the field's real value - also when that value is the default
+/// and the encoding in between leaves it out.  Last occurrence wins: the whole still decodes to `m`.
+pub fn overridden_wrap(s: &Schema, m: &DynMsg, r: &mut Rng) -> (Vec<u8>, Vec<u8>) {
+    let (mut pre, mut suf) = (vec![], vec![]);
+    for (d, slot) in s.decls(m.idx).iter().zip(&m.slots) {
+        if let (Decl::Single { tag, ty: FTy::Scalar(c), .. }, Slot::Req(EVal::S(v)) | Slot::Some(EVal::S(v))) = (d, slot) {
+            if !r.chance(1, 2) { continue; }
+            let other = gen_sv(r, *c);
+            put_key(*tag, wire_of(*c), &mut pre); enc_scalar(*c, &other, &mut pre);
+            put_key(*tag, wire_of(*c), &mut suf); enc_scalar(*c, v, &mut suf);
+        }
+    }
+    (pre, suf)
+}
+
 // ---------------------------------------------------------------- reference decoder
 fn rd_var(b: &[u8], p: &mut usize) -> Option<u64> {
     let mut v: u128 = 0;
